@@ -121,21 +121,28 @@ func (c *Container) addHandler(service *WebService, serveMux *http.ServeMux, reg
 		serveMux.HandleFunc("/", c.dispatch)
 		return true
 	}
-	// detect if registration already exists
-	alreadyMapped := false
+	// detect which registrations already exist ; root paths can share their fixed part
+	mapped := map[string]bool{}
 	for _, each := range registered {
-		if each.RootPath() == service.RootPath() {
-			alreadyMapped = true
-			break
+		for _, eachPattern := range muxPatterns(each.RootPath()) {
+			mapped[eachPattern] = true
 		}
 	}
-	if !alreadyMapped {
-		serveMux.HandleFunc(pattern, c.dispatch)
-		if !strings.HasSuffix(pattern, "/") {
-			serveMux.HandleFunc(pattern+"/", c.dispatch)
+	for _, eachPattern := range muxPatterns(service.RootPath()) {
+		if !mapped[eachPattern] {
+			serveMux.HandleFunc(eachPattern, c.dispatch)
 		}
 	}
 	return false
+}
+
+// muxPatterns returns the ServeMux patterns that are needed for dispatching to a WebService with this root path.
+func muxPatterns(rootPath string) []string {
+	pattern := fixedPrefixPath(rootPath)
+	if strings.HasSuffix(pattern, "/") {
+		return []string{pattern}
+	}
+	return []string{pattern, pattern + "/"}
 }
 
 func (c *Container) Remove(ws *WebService) error {
